@@ -225,6 +225,13 @@ struct simheap_cfg {
 
 void simheap_reset(const struct simheap_cfg *cfg, uint64_t seed);
 void simheap_end_run(void);
+/* after simheap_reset(): place the element blocks of this run 2^32 bytes apart (1) or 3 * 2^31 bytes apart (2); see simheap.c */
+void simheap_far(int mode);
+extern unsigned g_far_placed;
+#define CF_FAR 20               /* plan word (worlds with intrusive elements): the far-placement mode of the run */
+#define CF_DECL 21              /* plan word: the containers of the run start from the static initializer macros, not the init functions */
+#define DECL_OF_INDEX() (g_gen_index % 5 == 2 ? 1u : 0u)
+#define FAR_OF_INDEX() (g_gen_index % 7 == 3 ? 1u : g_gen_index % 7 == 5 ? 2u : 0u)
 
 /* harness-side allocation of tracked blocks (elements, external buffers) */
 void *simheap_alloc(size_t size, int tag);
